@@ -5,8 +5,24 @@ Everything here fails closed: a caller that does not find the exact shape it exp
 import re
 
 
+# A verification yield hook is exactly: `#[cfg(<expr mentioning tracing_verif>)]` followed by ONE statement
+# `[crate::|tracing_core::|...]__verif::yield_point(<digits>);`.  The models mirror the code with the guard OFF, so these
+# add-only, behaviour-free scheduling points are removed from what every translator sees (newlines preserved).
+# Nothing else guarded by tracing_verif is hidden: any other shape stays visible and must be recognised or fail closed.
+_VERIF_YIELD = re.compile(r"#\[cfg\((?:[^\[\]]*\b)?tracing_verif\b[^\[\]]*\)\]\s*(?:[A-Za-z_][A-Za-z_0-9]*::)*__verif::yield_point\(\s*\d+\s*\);")
+
+
+def strip_verif_hooks(src):
+    return _VERIF_YIELD.sub(lambda m: "\n" * m.group(0).count("\n"), src)
+
+
 def strip_comments(src):
-    """Remove // and /* */ comments and keep string literals intact.  Newlines are preserved."""
+    """Remove // and /* */ comments and keep string literals intact.  Newlines are preserved.
+    Verification yield hooks (see strip_verif_hooks) are removed afterwards."""
+    return strip_verif_hooks(_strip_comments(src))
+
+
+def _strip_comments(src):
     out = []
     i = 0
     n = len(src)
